@@ -831,7 +831,20 @@ func (c *SpecCtx) evalQuant(q *EQuant) Term {
 	body := qc.evalBool(q.Body)
 	g := tAnd(guards...)
 	if q.Forall {
-		return Term{fmt.Sprintf("(forall (%s) %s)", strings.Join(decls, " "), tImp(g, body).S), SBool}
+		inner := tImp(g, body).S
+		// explicit triggers: element references indexed by a bound variable (stable instantiation)
+		if len(q.Vars) == 1 {
+			bv := vars[q.Vars[0].Name].v.(Term).S
+			pats := elemrefPatterns(inner, bv)
+			if len(pats) > 0 && len(pats) <= 4 {
+				var sb strings.Builder
+				for _, p := range pats {
+					sb.WriteString(" :pattern (" + p + ")")
+				}
+				return Term{fmt.Sprintf("(forall (%s) (! %s%s))", strings.Join(decls, " "), inner, sb.String()), SBool}
+			}
+		}
+		return Term{fmt.Sprintf("(forall (%s) %s)", strings.Join(decls, " "), inner), SBool}
 	}
 	return Term{fmt.Sprintf("(exists (%s) %s)", strings.Join(decls, " "), tAnd(g, body).S), SBool}
 }
@@ -939,10 +952,19 @@ func (c *SpecCtx) locations(x Expr) []assignTarget {
 			if !e.typeReach(T, names, map[string]bool{}, true) {
 				return []assignTarget{{whole: true}}
 			}
+			var older Term
+			if mi, ok := src.(*ssa.MakeInterface); ok && c.f != nil {
+				if al, ok := mi.X.(*ssa.Alloc); ok {
+					// destination allocated by this function: only it and younger objects are written
+					if t, ok := c.f.vals[al].(Term); ok {
+						older = t
+					}
+				}
+			}
 			var out []assignTarget
 			for n := range names {
 				if cp := e.comps[n]; cp != nil {
-					out = append(out, assignTarget{comp: cp, whole: true})
+					out = append(out, assignTarget{comp: cp, whole: true, olderThan: older})
 				}
 			}
 			return out
@@ -1008,6 +1030,9 @@ func (c *SpecCtx) locations(x Expr) []assignTarget {
 	case *EUn:
 		if x.Op == "*" {
 			v, t := c.eval(x.X)
+			if fp, ok := v.(FieldPtr); ok {
+				return c.fieldTargets(fp.Ref, fp.S, structOf(fp.S).Field(fp.Field).Name(), false)
+			}
 			et := derefType(t)
 			if et == nil {
 				c.fail("assigns *x on non-pointer")
@@ -1037,7 +1062,7 @@ func (e *Enc) compByName(name string, elem types.Type) *Comp {
 	if st := structOf(elem); st != nil {
 		for i := 0; i < st.NumFields(); i++ {
 			ft := st.Field(i).Type()
-			if e.isStructT(ft) {
+			if e.subObj(ft) {
 				if cp := e.compByName(name, ft); cp != nil {
 					return cp
 				}
@@ -1067,7 +1092,7 @@ func (c *SpecCtx) fieldTargets(ref Term, S types.Type, name string, whole bool) 
 	if !ok {
 		c.fail("assigns: no field %s in %s", name, S)
 	}
-	if e.isStructT(ft) {
+	if e.subObj(ft) {
 		if whole {
 			names := map[string]bool{}
 			e.allFieldCompNames(ft, names)
@@ -1089,7 +1114,11 @@ func (c *SpecCtx) fieldTargets(ref Term, S types.Type, name string, whole bool) 
 func (c *SpecCtx) allFieldTargets(ref Term, S types.Type) []assignTarget {
 	st := structOf(S)
 	if st == nil {
-		c.fail("all(): not a struct")
+		var out []assignTarget
+		for _, l := range c.e.leaves(S) {
+			out = append(out, assignTarget{comp: c.e.cellComp(S, l), ref: ref})
+		}
+		return out
 	}
 	var out []assignTarget
 	for i := 0; i < st.NumFields(); i++ {
@@ -1147,9 +1176,14 @@ func (e *Enc) typeReach(t types.Type, out map[string]bool, seen map[string]bool,
 // memReach: memory holding a value of type t, and what it reaches.
 func (e *Enc) memReach(t types.Type, out map[string]bool, seen map[string]bool) bool {
 	if st := structOf(t); st != nil {
+		if !isRepoType(t) && !e.isBigInt(t) {
+			if _, named := t.(*types.Named); named {
+				return true // internals of external types are not observable by the verified code
+			}
+		}
 		for i := 0; i < st.NumFields(); i++ {
 			ft := st.Field(i).Type()
-			if e.isStructT(ft) {
+			if e.subObj(ft) {
 				if !e.memReach(ft, out, seen) {
 					return false
 				}
@@ -1168,4 +1202,40 @@ func (e *Enc) memReach(t types.Type, out map[string]bool, seen map[string]bool) 
 		out[e.cellComp(t, l).Name] = true
 	}
 	return e.typeReach(t, out, seen, false)
+}
+
+// elemrefPatterns returns the distinct (elemref ...) sub-terms of s that mention bound variable bv.
+func elemrefPatterns(s, bv string) []string {
+	var out []string
+	seen := map[string]bool{}
+	for i := 0; i+9 <= len(s); i++ {
+		if !strings.HasPrefix(s[i:], "(elemref ") {
+			continue
+		}
+		depth := 0
+		quoted := false
+		for j := i; j < len(s); j++ {
+			switch s[j] {
+			case '|':
+				quoted = !quoted
+			case '(':
+				if !quoted {
+					depth++
+				}
+			case ')':
+				if !quoted {
+					depth--
+				}
+			}
+			if depth == 0 {
+				t := s[i : j+1]
+				if strings.Contains(t, bv) && !seen[t] && strings.Count(t, "|q.") == strings.Count(t, bv) && !strings.Contains(t, "(forall") && !strings.Contains(t, "(exists") {
+					seen[t] = true
+					out = append(out, t)
+				}
+				break
+			}
+		}
+	}
+	return out
 }
